@@ -8,7 +8,8 @@
 (***************************************************************************)
 EXTENDS Threads, Json
 
-CONSTANT MaxPre
+CONSTANTS MaxPre,
+          PreemptAt     \* yield points at which a runnable thread may be preempted ({} = anywhere)
 
 VARIABLES sched, last, pre
 gvars == <<vars, sched, last, pre>>
@@ -17,8 +18,10 @@ GInit == Init /\ sched = <<>> /\ last = 0 /\ pre = 0
 
 GStep(t) ==
     /\ Step(t)
-    /\ LET p == IF last # 0 /\ last # t /\ ENABLED Step(last) THEN pre + 1 ELSE pre IN
+    /\ LET sw == last # 0 /\ last # t /\ ENABLED Step(last)
+           p == IF sw THEN pre + 1 ELSE pre IN
        /\ p <= MaxPre
+       /\ sw => (PreemptAt = {} \/ pc[last] \in PreemptAt)
        /\ pre' = p
     /\ last' = t
     /\ sched' = Append(sched, <<t, pc'[t]>>)
